@@ -44,7 +44,7 @@ def main():
             "level_claimed": {
                 "category": "exploration",
                 "text": meta.get("LEVEL_TEXT", "runtime monitoring of generated executions against a reference model; held = held on the executions listed in the evidence")
-                        + " Every case also runs under the process-level monitors of rtmon/shard.py (floating-point-event tap, per-case watchdog; odd shards use the library's other classes first); receivers, argument carriers, size strata and histories as inventoried in DESIGN.md section 0.",
+                        + " Every case also runs under the process-level monitors of rtmon/shard.py (floating-point-event tap, per-case watchdog; odd shards use the library's other classes first); receivers, argument carriers, size strata (among them sizes taken from the numeric constants of the monitored source, rtmon/codeconst.py) and histories as inventoried in DESIGN.md section 0.",
                 "design_ref": meta.get("DESIGN_REF", "DESIGN.md section 5, " + pid),
             },
             "level_note": meta.get("LEVEL_NOTE", "trusts numpy, CPython's copy.copy and slice semantics, and the reference model in rtmon/props/%s.py" % pid.lower()),
